@@ -38,6 +38,9 @@ def swt_model(rep, tier, fix=True):
 
 
 def run(rep):
+    if rep.tier == "thorough":
+        from .. import apalache
+        apalache.shape_lemmas(rep)
     dwtlib.f64()
     fnd = Findings()
     tier = rep.tier
